@@ -52,6 +52,39 @@ class ExtractError(Exception):
     pass
 
 
+class StaleUse(BaseException):
+    """the extracted loop body read a local that this iteration had not assigned: in the real loop it would see
+    whatever the previous iteration left there"""
+
+
+class Stale(object):
+    """stands for "some value left over from an earlier iteration": any attempt to look at it raises StaleUse"""
+
+    def _use(self, *a, **k):
+        raise StaleUse()
+
+    __bool__ = __eq__ = __ne__ = __lt__ = __le__ = __gt__ = __ge__ = __len__ = __iter__ = __contains__ = _use
+    __getitem__ = __call__ = __add__ = __radd__ = __sub__ = __rsub__ = __mod__ = __rmod__ = __int__ = __index__ = _use
+    __str__ = __bytes__ = __format__ = _use
+    __hash__ = None
+
+    def __getattr__(self, name):
+        if name.startswith('__') and name.endswith('__'):
+            raise AttributeError(name)
+        raise StaleUse()
+
+    def __repr__(self):
+        return '<stale local>'
+
+
+STALE = Stale()
+
+
+def stale_locals(info, known):
+    """{name: STALE} for every local of the function that is not part of the stated loop state"""
+    return {n: STALE for n in info['names'] if n not in known and n != 'self'}
+
+
 def loop_step(func, index=0, modname=None):
     """step(**state, _sx_yield_=list) -> (kind, locals) for the index-th
     top-level loop of func.  kind is 'next' | 'break'; a `return` inside the
